@@ -233,3 +233,187 @@ pub fn run_osu(run: &mut Run, tier: &str, seed: u64, only: Option<&str>) {
     }
     let _ = GameMode::Osu;
 }
+
+fn palp_str(l: &[(f32, f32, f64)]) -> String {
+    if l.is_empty() {
+        "-".to_owned()
+    } else {
+        l.iter().map(|(x, o, t)| format!("{},{},{}", h32(*x), h32(*o), h64(*t))).collect::<Vec<_>>().join("/")
+    }
+}
+
+/// One CCONV line + oracles: the per-object loop of catch `convert_objects` (positions, hard-rock
+/// offsets, PRNG state after every object) and its sorted output.
+fn catch_case(run: &mut Run, id: &str, map: &Beatmap, hr: bool, reflect: bool, repro: &str) {
+    use rosu_pp::catch::verif as cv;
+    let m2 = map.clone();
+    let Ok(steps) = guarded(move || cv::convert_steps(&m2, hr)) else {
+        run.fail("oracle:catch-convert-steps-panic", "", id, "panic".into(), repro.to_owned());
+        return;
+    };
+    let m3 = map.clone();
+    let Ok(real) = guarded(move || cv::converted(&m3, reflect, hr, 4.0)) else {
+        run.fail("oracle:catch-convert-panic", "", id, "panic".into(), repro.to_owned());
+        return;
+    };
+    // the copy of the loop in the hook and the real convert_objects agree (multiset of palpables)
+    let mut a: Vec<(u32, u32, u64)> = steps
+        .iter()
+        .flat_map(|s| s.palpables.iter())
+        .map(|(x, o, t)| if reflect { ((512.0 - x).to_bits(), (-o).to_bits(), t.to_bits()) } else { (x.to_bits(), o.to_bits(), t.to_bits()) })
+        .collect();
+    let mut b: Vec<(u32, u32, u64)> = real.iter().map(|(x, o, t)| (x.to_bits(), o.to_bits(), t.to_bits())).collect();
+    a.sort_unstable();
+    b.sort_unstable();
+    if a != b {
+        run.fail("oracle:catch-convert-steps-differ", "", id, format!("{} step palpables vs {} real", a.len(), b.len()), repro.to_owned());
+        return;
+    }
+    if steps.len() != map.hit_objects.len() {
+        run.fail("oracle:catch-convert-steps-differ", "", id, "one step per hit object expected".into(), repro.to_owned());
+    }
+    let mut decoded_in_range = true;
+    for (s, h) in steps.iter().zip(map.hit_objects.iter()) {
+        let want = if h.is_circle() {
+            0
+        } else if h.is_slider() {
+            1
+        } else {
+            2
+        };
+        if s.kind != want {
+            run.fail("oracle:catch-convert-kind", "", id, format!("{:?} became kind {}", h.kind, s.kind), repro.to_owned());
+        }
+        decoded_in_range &= (0.0..=512.0).contains(&s.x);
+        run.count(&format!("cconv:kind:{}", s.kind));
+        if s.kind == 0 && s.palpables.iter().any(|p| p.1 != 0.0) {
+            run.count("cconv:fruit-with-hr-offset");
+        }
+    }
+    // C09 clause: after the hard-rock offsets every FRUIT's x + x_offset lies in [0, 512] when its decoded x
+    // does (juice-stream positions follow the slider path and may leave the playfield; `effective_x` clamps)
+    for s in steps.iter().filter(|s| s.kind == 0) {
+        for (x, o, _) in &s.palpables {
+            let ex = x + o;
+            if (0.0..=512.0).contains(x) && !(0.0..=512.0).contains(&ex) {
+                run.fail("oracle:catch-hr-offset-range", "", id, format!("x {x} + offset {o} = {ex}"), repro.to_owned());
+            }
+        }
+    }
+    let _ = &real;
+    if !decoded_in_range {
+        run.count("cconv:decoded-x-outside-[0,512]");
+    }
+    run.count(&format!("cconv:hr={hr}:reflect={reflect}"));
+    run.count("cconv:lines");
+    let objs: Vec<String> = steps
+        .iter()
+        .map(|s| match s.kind {
+            0 => format!("f:{}:{}", h32(s.x), h64(s.start_time)),
+            1 => format!(
+                "s:{}:{}:{}:{}",
+                h32(s.x),
+                h64(s.start_time),
+                h32(s.last_control_x),
+                if s.nested.is_empty() { "-".to_owned() } else { s.nested.iter().map(|(k, x, t)| format!("{k},{},{}", h32(*x), h64(*t))).collect::<Vec<_>>().join("/") }
+            ),
+            _ => format!("b:{}", s.n_bananas),
+        })
+        .collect();
+    let outs: Vec<String> = steps
+        .iter()
+        .map(|s| {
+            format!(
+                "{}@{}@{}@{}:{}:{}:{}:{}:{}",
+                palp_str(&s.palpables),
+                s.last_pos.map_or("n".to_owned(), h32),
+                h64(s.last_start_time),
+                s.rng[0],
+                s.rng[1],
+                s.rng[2],
+                s.rng[3],
+                s.bit_buf,
+                s.bit_idx
+            )
+        })
+        .collect();
+    run.repro.insert(id.to_owned(), repro.to_owned());
+    run.line(
+        id,
+        format!("CCONV {} {} {}", u8::from(hr), u8::from(reflect), if objs.is_empty() { "-".to_owned() } else { objs.join(";") }),
+        format!("{}|{}", if outs.is_empty() { "-".to_owned() } else { outs.join(";") }, palp_str(&real)),
+    );
+    run.eval((!steps.is_empty()).then_some(id));
+}
+
+pub fn run_catch(run: &mut Run, tier: &str, seed: u64, only: Option<&str>) {
+    let thorough = tier == "thorough";
+    let n = if thorough { 30_000 } else { 2_500 };
+    for ci in 0..n {
+        let id = format!("cconv-{ci}");
+        if only.is_some_and(|o| o != id) {
+            continue;
+        }
+        let mut rng = Rng::new(seed ^ hash64(&id));
+        let mut cfg = GenCfg::small(if rng.chance(1, 2) { 2 } else { 0 });
+        cfg.max_objects = *rng.pick(&[4, 8, 14, 24]);
+        cfg.weights = *rng.pick(&[[10, 3, 2, 1], [10, 0, 0, 0], [6, 6, 3, 0]]);
+        cfg.long_gaps = rng.chance(1, 3);
+        let mut spec = random_map(&mut rng, &cfg);
+        // hard-rock offset branches: equal-x runs, small steps, > 1000 ms gaps, x at 0 and 512
+        if !spec.objects.is_empty() {
+            let t0 = spec.objects[0].time;
+            let mut t = t0;
+            let mut x = *rng.pick(&[0, 1, 100, 256, 511, 512]);
+            for o in spec.objects.iter_mut() {
+                t += *rng.pick(&[3.0, 40.0, 120.0, 400.0, 999.0, 1000.0, 1001.0, 1500.0]);
+                match rng.below(6) {
+                    0 | 1 => {}
+                    2 => x += rng.range(-30, 30) as i32,
+                    3 => x = *rng.pick(&[0, 512, 256]),
+                    4 => x = rng.range(0, 512) as i32,
+                    _ => x = rng.range(-40, 560) as i32,
+                }
+                if !rng.chance(1, 12) {
+                    x = x.clamp(0, 512);
+                }
+                o.x = x;
+                let dt = t - o.time;
+                if let ObjKind::Spinner { end } | ObjKind::Hold { end } = &mut o.kind {
+                    *end += dt;
+                }
+                o.time = t;
+            }
+        }
+        let text = spec.render();
+        let Ok(map) = decode(&text) else {
+            run.count("cconv:skipped:decode");
+            continue;
+        };
+        let map = if map.mode == GameMode::Catch {
+            map
+        } else {
+            match map.convert(GameMode::Catch, &rosu_pp::GameMods::from(0u32)) {
+                Ok(m) => m,
+                Err(_) => continue,
+            }
+        };
+        let hr = !rng.chance(1, 4);
+        let reflect = rng.chance(1, 5);
+        catch_case(run, &id, &map, hr, reflect, &format!("{text}\n# hardrock_offsets={hr} mirror={reflect}"));
+    }
+    for (i, (mode, text)) in resource_maps().into_iter().enumerate() {
+        if mode != 0 && mode != 2 {
+            continue;
+        }
+        let id = format!("cconv-res-{i}");
+        if only.is_some_and(|o| !o.starts_with(&id)) {
+            continue;
+        }
+        let Ok(map) = decode(&truncate_objects(&text, 400)) else { continue };
+        let map = if map.mode == GameMode::Catch { map } else { match map.convert(GameMode::Catch, &rosu_pp::GameMods::from(0u32)) { Ok(m) => m, Err(_) => continue } };
+        for (j, (hr, rf)) in [(true, false), (false, false), (true, true)].into_iter().enumerate() {
+            catch_case(run, &format!("{id}-{j}"), &map, hr, rf, &format!("resource map {i} truncated to 400 objects, hardrock_offsets={hr} mirror={rf}"));
+        }
+    }
+}
